@@ -46,6 +46,37 @@ func c16CheckDep(d c16Dep, tag string, isDep bool, reason *string, fieldStyle bo
 
 func c16Type(name string) *ast.Type { return ast.NamedType(name, nil) }
 
+type c16Default struct {
+	v    *ast.Value
+	want string // the GraphQL literal introspection must report; "" = no default declared
+}
+
+// default values of every literal kind
+var c16Defaults = []c16Default{
+	{nil, ""},
+	{&ast.Value{Raw: "7", Kind: ast.IntValue}, "7"},
+	{&ast.Value{Raw: "s\"q", Kind: ast.StringValue}, `"s\"q"`},
+	{&ast.Value{Raw: "null", Kind: ast.NullValue}, "null"},
+	{&ast.Value{Raw: "false", Kind: ast.BooleanValue}, "false"},
+	{&ast.Value{Raw: "RED", Kind: ast.EnumValue}, "RED"},
+	{&ast.Value{Raw: "1.5", Kind: ast.FloatValue}, "1.5"},
+	{&ast.Value{Kind: ast.ListValue, Children: ast.ChildValueList{{Value: &ast.Value{Raw: "1", Kind: ast.IntValue}}, {Value: &ast.Value{Raw: "null", Kind: ast.NullValue}}}}, "[1,null]"},
+	{&ast.Value{Kind: ast.ObjectValue, Children: ast.ChildValueList{{Name: "a", Value: &ast.Value{Raw: "1", Kind: ast.IntValue}}}}, "{a:1}"},
+	{&ast.Value{Kind: ast.ListValue}, "[]"},
+}
+
+func c16PickDefault(name string) c16Default {
+	return c16Defaults[zzsym.Choice("default:"+name, zzsym.Param("defaults", 4))]
+}
+
+func c16CheckDefault(d c16Default, got *string, what string) {
+	if d.want == "" {
+		zzsym.Assert(got == nil, what+": no default value when none declared")
+	} else {
+		zzsym.Assert(got != nil && *got == d.want, what+": the declared default value is reported as its GraphQL literal")
+	}
+}
+
 // Harness_C16_fields: an object type with 2 fields x 2 arguments, each
 // element with symbolic @deprecated (with/without reason), description and
 // default value: every wrapped element reports its own data.
@@ -57,6 +88,10 @@ func Harness_C16_fields() {
 	adep := map[string]c16Dep{}
 	hasDesc := zzsym.Bool("desc")
 	hasDefault := zzsym.Bool("default")
+	ydef := c16Default{}
+	if hasDefault {
+		ydef = c16PickDefault("arg.y")
+	}
 	for _, fn := range names {
 		fd := c16MkDep(fn)
 		fdep[fn] = fd
@@ -73,7 +108,7 @@ func Harness_C16_fields() {
 				arg.Description = "d:" + key
 			}
 			if hasDefault && an == "y" {
-				arg.DefaultValue = &ast.Value{Raw: "7", Kind: ast.IntValue}
+				arg.DefaultValue = ydef.v
 			}
 			f.Arguments = append(f.Arguments, arg)
 		}
@@ -110,7 +145,7 @@ func Harness_C16_fields() {
 			zzsym.Assert((a.Description() != nil) == hasDesc && (!hasDesc || *a.Description() == "d:"+key), "argument description")
 			zzsym.Assert(a.Type.Kind() == "NON_NULL" && a.Type.OfType() != nil && *a.Type.OfType().Name() == "Int", "argument type chain NON_NULL -> Int")
 			if hasDefault && an == "y" {
-				zzsym.Assert(a.DefaultValue != nil && *a.DefaultValue == "7", "argument default value")
+				c16CheckDefault(ydef, a.DefaultValue, "argument")
 			} else {
 				zzsym.Assert(a.DefaultValue == nil, "no default value when none declared")
 			}
@@ -126,12 +161,14 @@ func Harness_C16_inputsEnums() {
 	schema.Types["Int"] = &ast.Definition{Kind: ast.Scalar, Name: "Int"}
 	in := &ast.Definition{Kind: ast.InputObject, Name: "In"}
 	idep := map[string]c16Dep{}
+	var qdef c16Default
 	for _, fn := range []string{"p", "q"} {
 		d := c16MkDep("in." + fn)
 		idep[fn] = d
 		f := &ast.FieldDefinition{Name: fn, Type: ast.ListType(c16Type("Int"), nil), Directives: d.directives("in." + fn)}
 		if fn == "q" {
-			f.DefaultValue = &ast.Value{Raw: "1", Kind: ast.IntValue}
+			qdef = c16PickDefault("in.q")
+			f.DefaultValue = qdef.v
 		}
 		in.Fields = append(in.Fields, f)
 	}
@@ -145,8 +182,9 @@ func Harness_C16_inputsEnums() {
 	}
 	schema.Types["E"] = en
 	ddep := c16MkDep("dir.arg")
+	ddef := c16PickDefault("dir.arg")
 	schema.Directives["tag"] = &ast.DirectiveDefinition{Name: "tag", Locations: []ast.DirectiveLocation{ast.LocationField}, IsRepeatable: true,
-		Arguments: ast.ArgumentDefinitionList{{Name: "arg", Type: c16Type("Int"), Directives: ddep.directives("dir.arg"), DefaultValue: &ast.Value{Raw: "3", Kind: ast.IntValue}}}}
+		Arguments: ast.ArgumentDefinitionList{{Name: "arg", Type: c16Type("Int"), Directives: ddep.directives("dir.arg"), DefaultValue: ddef.v}}}
 
 	ifs := WrapTypeFromDef(schema, in).InputFields()
 	zzsym.Assert(len(ifs) == 2, "all input fields are listed")
@@ -155,7 +193,11 @@ func Harness_C16_inputsEnums() {
 		zzsym.Assert(f.Name == fn, "input field names")
 		c16CheckDep(idep[fn], "in."+fn, f.IsDeprecated(), f.DeprecationReason(), false, "input field")
 		zzsym.Assert(f.Type.Kind() == "LIST" && *f.Type.OfType().Name() == "Int", "input field type chain LIST -> Int")
-		zzsym.Assert((f.DefaultValue != nil) == (fn == "q"), "input field default value")
+		if fn == "q" {
+			c16CheckDefault(qdef, f.DefaultValue, "input field")
+		} else {
+			zzsym.Assert(f.DefaultValue == nil, "input field without default")
+		}
 	}
 	incl := zzsym.Bool("includeDeprecated")
 	evs := WrapTypeFromDef(schema, en).EnumValues(incl)
@@ -174,7 +216,8 @@ func Harness_C16_inputsEnums() {
 	ds := WrapSchema(schema).Directives()
 	zzsym.Assert(len(ds) == 1 && ds[0].Name == "tag" && ds[0].IsRepeatable && len(ds[0].Locations) == 1 && ds[0].Locations[0] == "FIELD", "directive definition")
 	da := &ds[0].Args[0]
-	zzsym.Assert(da.Name == "arg" && da.DefaultValue != nil && *da.DefaultValue == "3", "directive argument name and default")
+	zzsym.Assert(da.Name == "arg", "directive argument name")
+	c16CheckDefault(ddef, da.DefaultValue, "directive argument")
 	c16CheckDep(ddep, "dir.arg", da.IsDeprecated(), da.DeprecationReason(), false, "directive argument")
 	zzsym.Reach("c16.inputs")
 }
